@@ -88,6 +88,7 @@ structure RRes where
   outs : List Outcome := []
   env : List Val := []
   caught : Option Err := none
+  pv : Y := .none
   deriving Repr, Inhabited
 
 /-- await the own futures with the given indices at round `r`: unstarted tasks start now; returns the updated table
@@ -103,38 +104,42 @@ def awaitLeaves (r : Nat) (own : List FutR) : List Nat → Nat → List FutR × 
 /-- the round at which the task running `b` from round `r` finishes; `own` are the futures it created.
     A child task started at round r finishes at r + (its own depth from 0): nothing in a tree-shaped program
     depends on absolute rounds. -/
-def roundsBody (cfg : Cfg) : Body → Nat → List FutR → List Outcome → List Val → Option Err → RRes
-  | .ret _, r, own, _, _, _ => { round := r, own := own, fell := false }
-  | .res _, r, own, _, _, _ => { round := r, own := own, fell := false }
-  | .raise _, r, own, _, _, _ => { round := r, own := own, fell := false }
-  | .reraise, r, own, _, _, _ => { round := r, own := own, fell := false }
-  | .spawn child _ k, r, own, outs, env, caught =>
+def roundsBody (cfg : Cfg) : Body → Nat → List FutR → List Outcome → List Val → Option Err → Y → RRes
+  | .ret _, r, own, _, _, _, pv => { round := r, own := own, fell := false }
+  | .res _, r, own, _, _, _, pv => { round := r, own := own, fell := false }
+  | .raise _, r, own, _, _, _, pv => { round := r, own := own, fell := false }
+  | .reraise, r, own, _, _, _, pv => { round := r, own := own, fell := false }
+  | .spawn child _ k, r, own, outs, env, caught, pv =>
     let o := (evalBody cfg child [] [] [] none .none).outcome
-    let d := (roundsBody cfg child 0 [] [] [] none).round
-    roundsBody cfg k r (own ++ [.unstarted d]) (outs ++ [o]) env caught
-  | .item kind payload mode k, r, own, outs, env, caught =>
-    roundsBody cfg k r (own ++ [.ready (r + 1)]) (outs ++ [itemOutcome cfg kind payload mode]) env caught
-  | .const v k, r, own, outs, env, caught => roundsBody cfg k r (own ++ [.ready 0]) (outs ++ [.ok (.a v)]) env caught
-  | .errfut e k, r, own, outs, env, caught => roundsBody cfg k r (own ++ [.ready 0]) (outs ++ [.err (.u e)]) env caught
-  | .lazy o k, r, own, outs, env, caught => roundsBody cfg k r (own ++ [.ready 0]) (outs ++ [lazyOutcome o]) env caught
-  | .yld y k h, r, own, outs, env, caught =>
+    let d := (roundsBody cfg child 0 [] [] [] none .none).round
+    roundsBody cfg k r (own ++ [.unstarted d]) (outs ++ [o]) env caught pv
+  | .item kind payload mode k, r, own, outs, env, caught, pv =>
+    roundsBody cfg k r (own ++ [.ready (r + 1)]) (outs ++ [itemOutcome cfg kind payload mode]) env caught pv
+  | .const v k, r, own, outs, env, caught, pv => roundsBody cfg k r (own ++ [.ready 0]) (outs ++ [.ok (.a v)]) env caught pv
+  | .errfut e k, r, own, outs, env, caught, pv => roundsBody cfg k r (own ++ [.ready 0]) (outs ++ [.err (.u e)]) env caught pv
+  | .lazy o k, r, own, outs, env, caught, pv => roundsBody cfg k r (own ++ [.ready 0]) (outs ++ [lazyOutcome o]) env caught pv
+  | .yld y k h, r, own, outs, env, caught, pv =>
     -- every leaf is awaited now: unstarted tasks start at round r
     let p := awaitLeaves r own (y.leaves.filterMap fun | .own i => some i | .inh _ => none) r
     match unwrap (resolveO outs []) y with
-    | .ok v => roundsBody cfg k p.2 p.1 outs (env ++ [v]) caught
-    | .error e => roundsBody cfg h p.2 p.1 outs env (some e)
-  | .reyld k _, r, own, outs, env, caught => roundsBody cfg k r own outs env caught
-  | .withCtx _ b k, r, own, outs, env, caught =>
-    let x := roundsBody cfg b r own outs env caught
-    if x.fell then roundsBody cfg k x.round x.own x.outs x.env x.caught else x
-  | .endwith, r, own, outs, env, caught => { round := r, own := own, fell := true, outs := outs, env := env, caught := caught }
-  | .read _ k, r, own, outs, env, caught => roundsBody cfg k r own outs env caught
-  | .active k, r, own, outs, env, caught => roundsBody cfg k r own outs env caught
-  | .sync _ _ _ _, r, own, _, _, _ => { round := r, own := own, fell := false }     -- not yield-only
-  | .syncfut _ _ _, r, own, _, _, _ => { round := r, own := own, fell := false }
-  | .syncret _ _ _, r, own, _, _, _ => { round := r, own := own, fell := false }
+    | .ok v => roundsBody cfg k p.2 p.1 outs (env ++ [v]) caught y
+    | .error e => roundsBody cfg h p.2 p.1 outs env (some e) y
+  | .reyld k h, r, own, outs, env, caught, pv =>
+    -- the same object again: everything in it was awaited by the previous yield
+    match unwrap (resolveO outs []) pv with
+    | .ok v => roundsBody cfg k r own outs (env ++ [v]) caught pv
+    | .error e => roundsBody cfg h r own outs env (some e) pv
+  | .withCtx _ b k, r, own, outs, env, caught, pv =>
+    let x := roundsBody cfg b r own outs env caught pv
+    if x.fell then roundsBody cfg k x.round x.own x.outs x.env x.caught x.pv else x
+  | .endwith, r, own, outs, env, caught, pv => { round := r, own := own, fell := true, outs := outs, env := env, caught := caught, pv := pv }
+  | .read _ k, r, own, outs, env, caught, pv => roundsBody cfg k r own outs env caught pv
+  | .active k, r, own, outs, env, caught, pv => roundsBody cfg k r own outs env caught pv
+  | .sync _ _ _ _, r, own, _, _, _, pv => { round := r, own := own, fell := false }     -- not yield-only
+  | .syncfut _ _ _, r, own, _, _, _, pv => { round := r, own := own, fell := false }
+  | .syncret _ _ _, r, own, _, _, _, pv => { round := r, own := own, fell := false }
 
 /-- number of scheduler flushes a yield-only, tree-shaped, single-kind computation performs -/
-def roundsTop (cfg : Cfg) (body : Body) : Nat := (roundsBody cfg body 0 [] [] [] none).round
+def roundsTop (cfg : Cfg) (body : Body) : Nat := (roundsBody cfg body 0 [] [] [] none .none).round
 
 end AsynqModel.Core
